@@ -28,7 +28,7 @@ ASSUMPTIONS = ["population std/variance, type-7 quantiles", "-T results pass thr
                "grids are stored in ascending order (unsorted NetCDF lead times with -T are not judged)"]
 
 VALS = [-1.0, 0.0, 0.5, 2.0]
-AGGS = AG.NAMES + [0.0, 0.25, 0.5, 0.75, 1.0]
+AGGS = AG.NAMES + [0.0, 0.25, 0.5, 0.75, 1.0, 0.125, 0.975]      # the last two are not whole percents
 
 
 def shapes(maxprod):
@@ -232,8 +232,8 @@ def run(tier, only=None):
             continue
         t0 = time.time()
         st = explore.explore(h, mode="full", params=params, repo_root=core.REPO, time_cap=(400 if tier == "quick" else 3000))
-        bound = {"arrays": "all arrays over a 4-value alphabet in all %d shapes (<= 4 dims, extents 1..3) x all axes x 19 aggregators" % len(params.get("shapes", [])),
-                 "arrays-offset": "all arrays of 4 decimal values on offsets %r in shapes (2,), (3,), (2,2), (2,3) x all axes x 19 aggregators, 1e-8 relative" % (OFFSETS,),
+        bound = {"arrays": "all arrays over a 4-value alphabet in all %d shapes (<= 4 dims, extents 1..3) x all axes x 21 aggregators" % len(params.get("shapes", [])),
+                 "arrays-offset": "all arrays of 4 decimal values on offsets %r in shapes (2,), (3,), (2,2), (2,3) x all axes x 21 aggregators, 1e-8 relative" % (OFFSETS,),
                  "window": "all %d grids x %d windows x %d aggregators x 2 axes x 4 missing-cell variants" % (len(params.get("grids", [])), len(params.get("windows", [])), len(params.get("aggs", []))),
                  "window-cli": "as window on a subset, through -T/-Tagg/-Tx csv"}[name]
         subs.append(core.Sub.from_e1(name, st, bound=bound, rule="one execution = one array (all axes x aggregators) / one (grid, window, aggregator, axis) dataset with 7 request sets x 4 axes",
